@@ -396,6 +396,8 @@ def r07_6(run):
             cfgv = build_cfg(run, fi, assume)
             head = cfgv.node_for(lp)
             nst = cfgv.node_for(st_)
+            if nst is None or not cfgv.reachable(nst):
+                continue  # this detaching store belongs to the other scenario (non-view op): the gradient is nulled there (clause a)
             own = {cfgv.node_for(s) for s in own_nodes(lp) if isinstance(s, ast.Assign) and any(norm(t) == f"{v}._grad" for t in s.targets)}
             own |= {cfgv.stmt_node_containing(c) for c in calls_named(lp, "null_grad") if norm(c.func.value) == v}
             own.discard(None)
